@@ -45,6 +45,18 @@ def check_fn_compares_perm(facts, q):
     return False
 
 
+def _from_next_layer(g, a, depth=0):
+    """Is the expression (through local copies) the result of link_or_value::get_next_layer?"""
+    for x in g.walk(a):
+        if is_call(x, cq=Y + 'link_or_value::get_next_layer'):
+            return True
+        if x['k'] == 'DeclRefExpr' and x.get('dk') == 'var' and depth < 3:
+            ini = R.var_decl_init(g, x.get('id'))
+            if ini is not None and _from_next_layer(g, ini, depth + 1):
+                return True
+    return False
+
+
 class RangeReader:
     def __init__(self, S, f, check_q, bn_var, vfb_var, mode):
         self.S = S
@@ -169,8 +181,7 @@ class RangeReader:
                                'std::tuple<std::basic_string' in (n.get('cq') or ''))
                     is_desc = (cq == Y + 'scan' and g.qname == Y + 'scan_border') or \
                               (cq == Y + 'find_border' and me.mode == 'iscan' and
-                               any(x['k'] == 'DeclRefExpr' and x.get('name') == 'child' for a in call_args(g, n)[:1]
-                                   for x in g.walk(a)))
+                               any(_from_next_layer(g, a) for a in call_args(g, n)[:1]))
                     if is_push or is_desc:
                         ok, why = me.covered_ok((pending, chk, fs_before))
                         me._site('push', ('push value' if is_push else 'descent into next layer') + ' at ' + short_loc(n),
